@@ -581,7 +581,7 @@ def _is_m110(data):
 
 
 def run_direct(stmts, acks, status=None, late_hs=False, settle=0.02, do_disconnect=True, readings=False,
-               deadline=2.5, mode="serial", lose_at=0, slow=None, lose_idle_after=0, instant=(), idle_lines=None, fail_write_at=0,
+               deadline=8.0, mode="serial", lose_at=0, slow=None, lose_idle_after=0, instant=(), idle_lines=None, fail_write_at=0,
                reconnect_before=(), boot_reply=None):
     """Drive the real SerialWriter/PrintrunWriter. stmts: list of bytes handed to write(); acks: the reply line
     (bytes) the device gives to each statement; status: {k: [lines pushed before the ack of statement k]};
